@@ -153,8 +153,27 @@ pub fn run_with(args: Vec<String>, dispatch: impl FnOnce(&ShardArgs) -> Result<(
         }
         Err(p) => {
             let msg = util::panic_payload_to_string(&p);
-            out::finish(&a, Some(format!("harness panic: {msg}")));
-            3
+            // a panic that unwound through the harness thread: when it was raised inside the library's own sources (a call of
+            // the public API by the harness, e.g. a database transaction) it is the library's panic, not a harness error
+            let rec = util::take_panics().into_iter().rev().find(|r| r.message == msg);
+            match rec {
+                Some(r) if r.location.contains("dnp3/src/") && !r.location.contains("/verif/") => {
+                    let own = a.check.to_uppercase();
+                    out::violation(
+                        &own,
+                        &format!("{own}.panic_in_library_call"),
+                        &util::norm_location(&r.location),
+                        out::J::s(format!("{} at {} (thread {})", r.message, r.location, r.thread)),
+                        out::J::Null,
+                    );
+                    out::finish(&a, None);
+                    0
+                }
+                _ => {
+                    out::finish(&a, Some(format!("harness panic: {msg}")));
+                    3
+                }
+            }
         }
     }
 }
